@@ -46,6 +46,7 @@ enum Fault {
     TypeErrorInPrint,
     TypeErrorInShorthandArgument,
     TypeErrorViaTwoLets,
+    NodeOnDefinedScopedVariable,
 }
 
 const FAULTS: &[Fault] = &[
@@ -72,6 +73,7 @@ const FAULTS: &[Fault] = &[
     Fault::TypeErrorInPrint,
     Fault::TypeErrorInShorthandArgument,
     Fault::TypeErrorViaTwoLets,
+    Fault::NodeOnDefinedScopedVariable,
 ];
 
 impl Fault {
@@ -100,11 +102,12 @@ impl Fault {
             Fault::TypeErrorInPrint => "type_error_in_print_argument",
             Fault::TypeErrorInShorthandArgument => "type_error_in_shorthand_argument",
             Fault::TypeErrorViaTwoLets => "type_error_via_two_lets",
+            Fault::NodeOnDefinedScopedVariable => "node_statement_on_a_defined_scoped_variable",
         }
     }
     /// conflicts between two statements
     fn two_sided(&self) -> bool {
-        matches!(self, Fault::ConflictingAttribute | Fault::DuplicateScopedVariable | Fault::ConflictAcrossIterations | Fault::ConflictingEdgeAttribute | Fault::ConflictingNodeAttributeApart)
+        matches!(self, Fault::ConflictingAttribute | Fault::DuplicateScopedVariable | Fault::NodeOnDefinedScopedVariable | Fault::ConflictAcrossIterations | Fault::ConflictingEdgeAttribute | Fault::ConflictingNodeAttributeApart)
     }
 }
 
@@ -127,6 +130,11 @@ fn fault_stmts(f: Fault, cap: Option<&str>, shorthand: Option<&str>) -> Option<V
         Fault::DuplicateScopedVariable => {
             let c = cap?;
             vec![stmt(StmtKind::Let(GVar::s(GExpr::cap(c), "zq_dup"), GExpr::Int(1))), stmt(StmtKind::Let(GVar::s(GExpr::cap(c), "zq_dup"), GExpr::Int(2)))]
+        }
+        // a `node` statement can fail too: the scoped variable it would define exists already
+        Fault::NodeOnDefinedScopedVariable => {
+            let c = cap?;
+            vec![stmt(StmtKind::Let(GVar::s(GExpr::cap(c), "zq_nd"), GExpr::Int(1))), stmt(StmtKind::Node(GVar::s(GExpr::cap(c), "zq_nd")))]
         }
         Fault::UndefinedEdge => vec![stmt(StmtKind::Node(GVar::u("zq_n"))), stmt(StmtKind::Node(GVar::u("zq_m"))), stmt(StmtKind::AttrEdge(n(), GExpr::var("zq_m"), vec![a("zq_a", GExpr::Int(1))]))],
         Fault::EdgeOnNonNode => vec![stmt(StmtKind::Node(GVar::u("zq_n"))), stmt(StmtKind::Edge(n(), GExpr::str("not a node")))],
@@ -213,7 +221,7 @@ fn fault_positions(f: Fault) -> (usize, Option<usize>) {
     match f {
         Fault::TypeErrorInCall | Fault::UnknownFunction | Fault::FormatArity | Fault::EdgeOnNonNode => (1, None),
         Fault::ConflictingAttribute => (2, Some(1)),
-        Fault::DuplicateScopedVariable => (1, Some(0)),
+        Fault::DuplicateScopedVariable | Fault::NodeOnDefinedScopedVariable => (1, Some(0)),
         Fault::UndefinedEdge => (2, None),
         // the `let` holds the failing value; strict fails there, lazy when the thunk is forced
         // (and reports the statement that created it)
